@@ -27,14 +27,15 @@ def run(ctx: Ctx) -> None:
                 "(valid and invalid), each under ALL 3^m assignments (m<=4/5); is_valid_expression on rendered single- and multi-part AHB expressions "
                 "under all 3^m*2^n generated results; distinct = tree; non-trivial = has an O/X node")
     ctx.coverage["generated_changed"] = extract.regenerate(["Cfv"])
-    ok = ctx.lean_build(MODULES + ["driver"])
+    ok = ctx.lean_build(MODULES)
+    drv = ctx.lean_build_driver()
     if ok:
         ctx.lean_audit(MODULES)
         if not ctx.quick:
             ctx.lean_check_olean(MODULES)
     exprs = [(s, e) for s, e in EC.gen_exprs(ctx, ctx.pick(300, 3000), ctx.pick(7, 9), ctx.pick(3, 4)) if E.well_formed(e)]
     cases = EC.rc_cases(ctx, exprs, ctx.pick(81, 243))
-    EC.run_impl_and_model(ctx, cases, ok)
+    EC.run_impl_and_model(ctx, cases, drv)
     by_tree = {}
     for c in cases:
         by_tree.setdefault(repr(c["e"]), []).append(c)
